@@ -194,6 +194,18 @@ def check_proofs(prop):
     if bad:
         failures.append("Admitted/admit in Props/%s.v" % prop)
         discharged = []
+    # hygiene over the whole development: nothing admitted, no axioms declared, no checks off
+    pat = re.compile(r"(?m)^\s*(Admitted\.|admit\.|Axiom\s|Axioms\s|Parameter\s|Parameters\s|Conjecture\s|Admit Obligations|"
+                     r"Unset Guard Checking|Unset Positivity Checking|Unset Universe Checking)|bypass_check|-type-in-type|give_up")
+    for d, _, files in os.walk(COQ):
+        for fn in files:
+            if fn.endswith(".v"):
+                src_text = open(os.path.join(d, fn), errors="replace").read()
+                src_nc = re.sub(r"\(\*.*?\*\)", "", src_text, flags=re.S)
+                m = pat.search(src_nc)
+                if m:
+                    failures.append("forbidden construct %r in %s" % (m.group(0).strip(), os.path.relpath(os.path.join(d, fn), COQ)))
+                    discharged = []
     return theorems, discharged, (o + e).strip(), failures
 
 
